@@ -2681,6 +2681,12 @@ func decodePortnameCounters(data *[]byte) (SFlowPORTNAME, error) {
 	pn := SFlowPORTNAME{}
 	var cdf SFlowCounterDataFormat
 
+	if len(*data) < 12 {
+		return pn, errors.New("port name counters too small")
+	}
+	if strLen := binary.BigEndian.Uint32((*data)[8:12]); strLen > uint32(len(*data)-12) || roundUpToNearest4(int(strLen)) > len(*data)-12 {
+		return pn, errors.New("port name counters too small for name")
+	}
 	*data, cdf = (*data)[4:], SFlowCounterDataFormat(binary.BigEndian.Uint32((*data)[:4]))
 	pn.EnterpriseID, pn.Format = cdf.decode()
 	*data, pn.FlowDataLength = (*data)[4:], binary.BigEndian.Uint32((*data)[:4])
